@@ -33,6 +33,7 @@ def cargo_env():
     env = dict(os.environ)
     env["CARGO_NET_OFFLINE"] = "true"
     env.setdefault("CARGO_TERM_COLOR", "never")
+    env["CARGO_TARGET_DIR"] = TARGET
     # never let a caller's RUSTFLAGS leak into the harness builds
     env.pop("RUSTFLAGS", None)
     return env
